@@ -294,6 +294,70 @@ def _free_exact(f: ast.FunctionDef, fr: dict) -> bool:
     ]
 
 
+_ALLOCATOR_API = ["__init__", "initialize", "num_allocs", "max_allocs", "_read_allocs", "_write_allocs", "allocate", "free",
+                  "_warn_if_near_limit", "reset"]
+
+
+def _allocator_state(cls: ast.ClassDef) -> tuple[bool, bool]:
+    """(state is the header only, API is the modelled one).
+
+    State: `__slots__` is exactly `("_buf", "_total_size")`, there is no other class-level assignment, `__init__` stores
+    nothing but those two, and no other method stores anything on `self` — so nothing decoded from the header (or anything
+    else) survives a call: two handles on one segment behave like one.  API: the methods are exactly the ones the model
+    transliterates (a new mutating method would be behaviour the model does not have)."""
+    slots_ok = False
+    other_class_assign = False
+    names = []
+    stores: dict[str, set[str]] = {}
+    for n in cls.body:
+        if isinstance(n, ast.Assign) and len(n.targets) == 1 and isinstance(n.targets[0], ast.Name) and n.targets[0].id == "__slots__":
+            try:
+                slots_ok = sorted(ast.literal_eval(n.value)) == ["_buf", "_total_size"]
+            except ValueError:
+                slots_ok = False
+        elif isinstance(n, (ast.Assign, ast.AnnAssign, ast.AugAssign)):
+            other_class_assign = True
+        elif isinstance(n, (ast.FunctionDef, ast.AsyncFunctionDef)):
+            names.append(n.name)
+            st = set()
+            for x in ast.walk(n):
+                if isinstance(x, ast.Attribute) and isinstance(x.ctx, (ast.Store, ast.Del)) and isinstance(x.value, ast.Name) and x.value.id == "self":
+                    st.add(x.attr)
+                if isinstance(x, (ast.Global, ast.Nonlocal)):
+                    st.add("<global>")
+                if isinstance(x, ast.Call) and ast.unparse(x.func) in ("setattr", "object.__setattr__"):
+                    st.add("<setattr>")
+            stores[n.name] = st
+        elif not (isinstance(n, ast.Expr) and isinstance(n.value, ast.Constant)):
+            other_class_assign = True
+    state_ok = (slots_ok and not other_class_assign and stores.get("__init__") == {"_buf", "_total_size"}
+                and all(not v for k, v in stores.items() if k != "__init__"))
+    return state_ok, names == _ALLOCATOR_API
+
+
+def _aw_exact(f: ast.FunctionDef) -> bool:
+    """`allocate_and_write` is exactly one of the two statement sequences the model has (sink with / without a limit)."""
+    def body(sink: str, guarded: bool) -> list[str]:
+        write = ("    try:\n        writer = new_ipc_stream(sink, batch.schema)\n        writer.write_batch(batch)\n        writer.close()\n"
+                 "    except _ShmSinkOverflowError:\n        self._allocator.free(offset)\n        return None\n") if guarded else (
+                 "    writer = new_ipc_stream(sink, batch.schema)\n    writer.write_batch(batch)\n    writer.close()\n")
+        return [
+            "shm_buf = self._shm.buf",
+            "assert shm_buf is not None",
+            "if not _has_dictionary_columns(batch.schema):\n    estimated = ipc.get_record_batch_size(batch) + _STREAM_OVERHEAD\n"
+            "    offset = self._allocator.allocate(estimated)\n    if offset is None:\n        return None\n"
+            f"    sink = {sink}\n" + write + "    return (offset, sink.bytes_written)",
+            "serialized = _serialize_for_shm(batch)",
+            "size = serialized.size",
+            "offset = self._allocator.allocate(size)",
+            "if offset is None:\n    return None",
+            "shm_buf[offset:offset + size] = memoryview(serialized).cast('B')",
+            "return (offset, size)",
+        ]
+    st = _stmts(f)
+    return st in (body("_ShmSink(shm_buf, offset, estimated)", True), body("_ShmSink(shm_buf, offset)", False))
+
+
 def _b(x: object) -> str:
     return "true" if x else "false"
 
@@ -324,6 +388,9 @@ def emit() -> dict[str, str]:
     fr["body"] = bool(fr["body"]) and _free_exact(_func(tree, "ShmAllocator", "free"), fr)
     sk = _sink_shape(_func(tree, "_ShmSink", "__init__"), _func(tree, "_ShmSink", "write"))
     aw = _aw_shape(_func(tree, "ShmSegment", "allocate_and_write"))
+    aw_exact = _aw_exact(_func(tree, "ShmSegment", "allocate_and_write"))
+    state_ok, api_ok = _allocator_state(alloc_cls)
+    seg_free_ok = _stmts(_func(tree, "ShmSegment", "free")) == ["self._allocator.free(offset)"]
     reset_ok = [x.replace('"', "'") for x in _stmts(_func(tree, "ShmAllocator", "reset"))] == ["struct.pack_into('<I', self._buf, 16, 0)"]
     init_ok = _stmts(_func(tree, "ShmAllocator", "initialize")) == [
         "data_size = total_size - HEADER_SIZE", "_HEADER_STRUCT.pack_into(buf, 0, _MAGIC, _VERSION, data_size, 0, 0)"]
@@ -418,6 +485,14 @@ def estimateIsBatchPlusOverhead : Bool := {_b(aw["estimate"] and aw["allocEst"])
 def overflowFrees : Bool := {_b(aw["overflowFrees"])}
 /-- the non-dictionary path returns `(offset, sink.bytes_written)` -/
 def returnsBytesWritten : Bool := {_b(aw["returnsWritten"])}
+/-- `allocate_and_write` is, statement for statement, the sequence the model transliterates (nothing before, between or
+    after: e.g. no second allocator call once the batch is written) and `ShmSegment.free` is `self._allocator.free(offset)` -/
+def allocateAndWriteExact : Bool := {_b(aw_exact and seg_free_ok)}
+/-- `ShmAllocator` keeps nothing between calls but the buffer and the total size (`__slots__`, every `self.x = …`): the
+    allocation table lives in the header bytes only, so any number of handles on one segment are one allocator -/
+def allocatorStateIsHeaderOnly : Bool := {_b(state_ok)}
+/-- the methods of `ShmAllocator` are exactly the modelled ones -/
+def allocatorApiRecognised : Bool := {_b(api_ok)}
 /-- dictionary path: `allocate(serialized.size)` then `shm_buf[offset : offset + size] = serialized` -/
 def dictPathExact : Bool := {_b(aw["dictExact"])}
 
